@@ -54,6 +54,17 @@ def srp_probe() -> str:
     return "\n".join(out)
 
 
+def srp_probe_ts() -> str:
+    out = []
+    for m in range(1, 13):
+        out.append(f"class Beta{chr(96 + m)} {{")
+        out.append("  v = 0;")
+        for i in range(m):
+            out.append(f"  op{chr(65 + i)}(): number {{ return this.v; }}")
+        out.append("}\n")
+    return "\n".join(out)
+
+
 def pipeline_probe() -> str:
     out = []
     for c in range(1, 9):
@@ -188,14 +199,16 @@ def write_carrier(root: Path, carrier: str, cfg: dict, name: str | None = None) 
     return fn
 
 
-def run_cmd(root: Path, cmd: str, pre: list[str], targets: list[str], group_pre: list[str] | None = None) -> dict:
+def run_cmd(root: Path, cmd: str, pre: list[str], targets: list[str], group_pre: list[str] | None = None,
+            only: set | None = None) -> dict:
     argv = (group_pre or []) + [cmd] + pre + targets
     r = drive.cli(argv + ["--format", "json"], cwd=root)
     viol, _ = drive.parse_json_violations(r["stdout"])
     bag = None
     if viol is not None:
         bag = sorted(canon([v["rule_id"], drive.rel(os.path.join(root, v["file_path"]), root), v["line"],
-                            v["message"].replace(str(root) + "/", "")]) for v in viol if kit.owns(cmd, v["rule_id"]))
+                            v["message"].replace(str(root) + "/", "")]) for v in viol if kit.owns(cmd, v["rule_id"])
+                     and (only is None or drive.rel(os.path.join(root, v["file_path"]), root) in only))
     return {"exit": r["exit"], "bag": bag, "stderr": (r["stderr"] or "")[-300:], "exc": r["exc"]}
 
 
@@ -206,11 +219,20 @@ def mkroot(j: dict) -> Path:
     return root
 
 
-def sect(o: dict, vid: int, with_lang: bool) -> dict:
+# companion file of another language (Config.tla `companion`): its language, its content, and the value its own
+# per-language override carries (a value no reference run uses: if it leaks into the probe, no reference matches)
+COMPANION = {"nesting.max_nesting_depth": ("typescript", "ts", nest_probe_ts, 4),
+             "nesting.max_nesting_depth@typescript": ("python", "py", nest_probe, 4),
+             "srp.max_methods": ("typescript", "ts", srp_probe_ts, 7)}
+
+
+def sect(o: dict, vid: int, with_lang: bool, companion: tuple | None = None) -> dict:
     s = dict(o["extra"])
     s[o["option"]] = o["vals"][vid]
     if with_lang and o["lang"]:
         s[o["lang"]] = {o["option"]: o["vals"][vid + 10]}
+        if companion:
+            s[companion[0]] = {o["option"]: companion[3]}
     return s
 
 
@@ -222,19 +244,27 @@ def job_case(j: dict) -> dict:
     drive.write_tree(root, o["files"])
     c = j["case"]
     key = section_key(o["section"], c["spelling"])
+    comp = COMPANION.get(j["opt"]) if c.get("companion", "none") != "none" else None
+    targets = sorted(o["files"])
+    if comp:
+        cname = ("aaa_companion." if c["companion"] == "before" else "zzz_companion.") + comp[1]
+        (root / cname).write_text(comp[2]())
+        targets = [cname] + targets if c["companion"] == "before" else targets + [cname]
     for carrier, vid in (("yaml", 1), ("json", 2), ("pyproject", 3)):
         if c[carrier]:
-            write_carrier(root, carrier, {key: sect(o, vid, c["lang"])})
+            write_carrier(root, carrier, {key: sect(o, vid, c["lang"], comp)})
     pre, group_pre = [], []
     if c["dash"] != "none":
-        fn = write_carrier(root.parent, c["dash"], {key: sect(o, 4, c["lang"])}, name=f"alt.{c['dash']}")
+        fn = write_carrier(root.parent, c["dash"], {key: sect(o, 4, c["lang"], comp)}, name=f"alt.{c['dash']}")
         if j["group_level"]:
             group_pre = ["--config", str(root.parent / fn)]
         else:
             pre += ["--config", str(root.parent / fn)]
     if c["cli"]:
         pre += [o["cli"], str(o["vals"][5])]
-    return run_cmd(root, o["cmd"], pre, sorted(o["files"]), group_pre)
+    # explicit list in the given order or the directory (walk order): both are one run over both languages
+    return run_cmd(root, o["cmd"], pre, targets if (comp is None or j.get("listed", True)) else ["."], group_pre,
+                   only=set(o["files"]))
 
 
 def job_ref(j: dict) -> dict:
@@ -281,7 +311,7 @@ def job_invalid(j: dict) -> dict:
 def run(chk) -> None:
     quick = chk.tier == "quick"
     drive.preload()
-    chk.rule = ("(a) Config.tla cases (project carriers x --config x command-line option x language override x "
+    chk.rule = ("(a) Config.tla cases (project carriers x --config x command-line option x language override x file of another language linted before/after in the same run x "
                 "section spelling; exhaustive, 192+ cases) per graded option, effective value measured against "
                 "reference runs; (b) enabled:false and switches per linter section x spelling x carrier; "
                 "(c) monotone sweeps; (d) invalid values / unparsable files per carrier; non-trivial = at least "
@@ -303,6 +333,10 @@ def run(chk) -> None:
         if r.violation:
             raise MachineryError("Config.tla invariants violated:\n" + r.stdout[-1500:])
         cases_by_h[hyph] = tlc.parse_cases(r.stdout)
+    pred2 = tlc.run("Config", "mc/Config_sharedObject.cfg", workers=1, timeout=300)
+    chk.add_tlc("Config with one parsed section object per run (non-vacuity)", pred2)
+    if not pred2.violation:
+        raise MachineryError("vacuity: BEqualsA holds when the parsed section is shared across languages")
     pred = tlc.run("Config", "mc/Config_hyphenOnly.cfg", workers=1, timeout=300)
     chk.add_tlc("Config with hyphen-only lookup (non-vacuity)", pred)
     if not pred.violation:
@@ -323,9 +357,11 @@ def run(chk) -> None:
                 continue
             if o["extra"] and not (c["yaml"] or c["json"] or c["pyproject"] or c["dash"] != "none"):
                 continue      # the linter must be switched on by a carrier (dry is off by default): CLI-only is unobservable
+            if c.get("companion", "none") != "none" and opt not in COMPANION:
+                continue
             if quick and (ci + len(opt)) % 3 and not (c["cli"] and c["lang"]):
                 continue
-            jobs.append({"opt": opt, "case": c, "group_level": ci % 4 == 0})
+            jobs.append({"opt": opt, "case": c, "group_level": ci % 4 == 0, "listed": ci % 3 != 0})
             kinds.append(("case", opt, ci))
     for i, j in enumerate(jobs):
         j["root"] = str(scratch_root() / f"c05-{i}" / "proj")
@@ -446,6 +482,7 @@ def run(chk) -> None:
         c = case.get("case") if case["kind"] == "case" else None
         for f in ("yaml", "json", "pyproject", "cli", "lang"):
             rec[f] = bool(c[f]) if c else False
+        rec["companion"] = c.get("companion", "none") if c else "none"
         rec["dash"] = c["dash"] if c else "none"
         rec["spelling"] = c["spelling"] if c else "hyphen"
     verdicts = trace.validate(chk, "ConfigTrace", "mc/ConfigTrace.cfg", records)
@@ -458,6 +495,8 @@ def run(chk) -> None:
             c = case["case"]
             o = OPTIONS[case["option"]]
             observed = next((r["observed"] for r, (cc, _) in zip(records, meta) if cc is case), None)
+            if c.get("companion", "none") != "none":
+                key["companion"] = c["companion"]
             key.update({"option": case["option"], "spelling": c["spelling"], "cli": c["cli"], "lang": c["lang"],
                         "config_placement": ("group" if case["group_level"] else "command") if c["dash"] != "none" else "none",
                         "winner": c["effective"], "observed": observed,
